@@ -1808,9 +1808,19 @@ feature! {
             self.iter().all(|s| s.enabled(metadata, ctx.clone()))
         }
 
+        fn event_enabled(&self, event: &Event<'_>, ctx: Context<'_, C>) -> bool {
+            self.iter().all(|s| s.event_enabled(event, ctx.clone()))
+        }
+
         fn on_new_span(&self, attrs: &span::Attributes<'_>, id: &span::Id, ctx: Context<'_, C>) {
             for s in self {
                 s.on_new_span(attrs, id, ctx.clone());
+            }
+        }
+
+        fn on_id_change(&self, old: &span::Id, new: &span::Id, ctx: Context<'_, C>) {
+            for s in self {
+                s.on_id_change(old, new, ctx.clone());
             }
         }
 
